@@ -207,6 +207,35 @@ func (h *gHub) wait(deadline time.Duration, pred func() (done bool, err error)) 
 	}
 }
 
+// holdFor keeps whatever sits on a gate there for d — a deliberate hold, not a hang deadline: nothing is charged to the
+// hang budget. It returns at once with the error of abort (called with the hub locked) when that reports one, and with
+// cut = true when the soft deadline of the run passes during a hold of a second or more.
+func (h *gHub) holdFor(d time.Duration, abort func() error) (held time.Duration, cut bool, err error) {
+	t0 := time.Now()
+	for {
+		h.mu.Lock()
+		if abort != nil {
+			err = abort()
+		}
+		ch := h.notify
+		h.mu.Unlock()
+		held = time.Since(t0)
+		if err != nil || held >= d {
+			return held, false, err
+		}
+		if d >= time.Second {
+			lib.Touch()
+			if lib.Expired() {
+				return held, true, nil
+			}
+		}
+		select {
+		case <-ch:
+		case <-time.After(min(d-held, 250*time.Millisecond)):
+		}
+	}
+}
+
 // waitBlocked waits until exactly the calls named by want sit on their gates. A blocked call outside want is an
 // immediate error (calls only ever get added until the harness opens a gate).
 func (h *gHub) waitBlocked(want []string, deadline time.Duration) error {
